@@ -45,6 +45,7 @@ func runC17(c *core.Ctx) core.Meta {
 
 	// R17.1 one response per request
 	RunProto(c, &ProtoCfg{
+		AllEffectsAfterSend: true,
 		RuleBase: "R17.1", Pkg: sbmPkg, FloorSends: 2,
 		Effects: []Effect{
 			RetrieveEffect,
